@@ -396,6 +396,14 @@ BLOCKS = [
      '<xsl:sort select="@id"/><xsl:value-of select="@id"/>,</xsl:for-each>|<xsl:for-each select="//*"><xsl:sort/><xsl:sort select="@id"/><xsl:value-of select="@id"/>,</xsl:for-each>|'
      '<xsl:for-each select="//*"><xsl:sort data-type="number"/><xsl:sort select="@id"/><xsl:value-of select="@id"/>,</xsl:for-each>|'
      '<xsl:for-each select="//*"><xsl:sort select="number(.)" data-type="number"/><xsl:sort select="@id"/><xsl:value-of select="@id"/>,</xsl:for-each>|<xsl:for-each select="//text()"><xsl:sort select="." order="descending"/><xsl:value-of select="%s"/>,</xsl:for-each>' % (TR % ".")),
+    # string(node-set) delivered into a string BUFFER (attribute value templates, concat() arguments, sort keys) and
+    # key values taken from a node-set valued use expression: other overloads than xsl:value-of uses (seeds C13_e, C15_e)
+    ("string-buffers",
+     '<xsl:key name="kuse" match="*" use="*"/><xsl:key name="kuse2" match="*" use="node()"/>',
+     '<xsl:for-each select="//*"><e v="{string(.)}" w="[{%s}]" x="{concat(string(.), \'|\', string(*[1]), \'|\', string(text()[1]))}" y="{string-length(string(.))}"/></xsl:for-each>'
+     '<s><xsl:for-each select="//*"><xsl:sort select="string(.)"/><xsl:sort select="concat(string(*[1]), @id)"/><xsl:value-of select="@id"/>,</xsl:for-each></s>'
+     '<k><xsl:for-each select="//*"><xsl:value-of select="count(key(\'kuse\', string(.)))"/>.<xsl:value-of select="count(key(\'kuse\', string(*[1])))"/>.'
+     '<xsl:value-of select="count(key(\'kuse2\', string(node()[1])))"/>.<xsl:value-of select="count(key(\'kuse\', *))"/>;</xsl:for-each></k>' % (TR % "string(.)")),
     ("document",
      '<xsl:key name="dkt" match="text()" use="string-length(.)"/>',
      '<xsl:value-of select="count(document(\'d2.xml\')//text())"/>/<xsl:value-of select="count(document(\'d2.xml\')//node())"/>|<xsl:copy-of select="document(\'d2.xml\')"/>|'
